@@ -17,7 +17,7 @@ pub static DEADLINE: Scenario = Scenario {
     id: "C11",
     name: "c11-deadline",
     run,
-    quick_runs: 8000,
+    quick_runs: 16_000,
     thorough_runs: 300_000,
     rule: "one run = caller and server Networks built by the real Builder::start with PRNG inbound/outbound defaults (each absent or 0..3000 ms), in a third of the runs a final phase where every stream the server grants (1-4) is held by a slow request while a further request with a short timeout header waits for a stream, 1-30 sequential calls with a PRNG timeout header (absent, 0, below/between/above the defaults, u64::MAX, 2^64, non-numeric, negative, padded), PRNG handler duration and API path (Network::rpc, Peer::rpc, Peer as tower Service) on a constant-latency link (deciding configuration) or a jittered link (boundaries skipped); distinct = distinct order signature over per-call (header class, which deadline won, caller outcome, handler outcome); non-trivial = at least one deadline cut a handler or a caller off",
     real: super::REAL_NET,
